@@ -38,7 +38,7 @@ type Prod struct {
 	Name     string  `json:"name"`
 	Fields   []Field `json:"fields"`
 	Expr     *Expr   `json:"expr"`
-	PosStyle int     `json:"pos_style"` // 0 none, 1 direct Pos/EndPos/Tokens, 2 embedded struct, 3 convertible named position type, 4 only Tokens
+	PosStyle int     `json:"pos_style"` // 0 none, 1 direct Pos/EndPos/Tokens, 2 embedded struct, 3 convertible named position type, 4 only Tokens, 5 only EndPos, 6 only Pos (named type), 7 EndPos (named type) and Tokens
 	PtrRecv  bool    `json:"ptr_recv,omitempty"`
 	ParserKV bool    `json:"parser_kv,omitempty"` // tags emitted as parser:"..."
 }
